@@ -457,6 +457,6 @@ func TestC13(t *testing.T) {
 	m.Floor(int64(m.N(1500, 20000)), 30)
 	m.Need("emission:single-share:quai", "credited:coinbase:byte0:miner", "credited:coinbase:byte1:miner", "credited:coinbase:byte2:miner", "credited:coinbase:byte3:miner",
 		"lockup-record-matches", "credited:qi-to-quai-conversion:new-account:conversion-recipient", "credited:qi-to-quai-conversion:conversion-recipient",
-		"credited:claim-etx:claim-recipient", "claim-refused:latest-epoch", "claim-refused:non-owner", "claim-refused:before-tranche-height", "claim-refused:no-record",
+		"credited:claim-etx:claim-recipient", "claim-refused:latest-epoch", "claim-refused:non-owner", "claim-refused:before-tranche-height", "claim-refused:no-record", "claim-refused:no-record:claimed-earlier-in-this-block",
 		"emission:with-shares:all-rewarded", "reorg-across-unlock-heights", "reorg-across-lockup-accumulation", "rollback:lockup-record-compared", "reorged-vs-fresh-node:lockup-records", "block-repeating-uncle:same-block", "claim-in-failing-tx", "claim:owner-after-unlock:paid-exact-balance-once", "share-resubmitted-after-inclusion", "early-spend-of-locked-output:refused-by-pool", "qi-reward-output-spent:after-lock")
 }
